@@ -24,12 +24,13 @@
       clause: S sscanf = strtod; V strtod returns well-formed doubles; N2 "%d" reads back as
       (double) int; N3 17 digits read back exactly; N4 15 digits survive double -> text ->
       double -> text; N4z no underflow to zero; N5a "%1.15g" of an int-valued double is the
-      "%d" text; N5b integers below 10^15 read back exactly from "%1.15g").  Clause S is proved
-      for the executable reference implementations; all clauses are evaluated on a table of
-      boundary doubles in RoundTripEvidence.v (tests). *)
+      "%d" text; N5b integers below 10^15 read back exactly from "%1.15g").  Clauses S and N2
+      are proved for the executable reference implementations; all clauses are evaluated on a
+      table of boundary doubles in RoundTripEvidence.v (tests); all clauses together are proved
+      for an artificial library in RoundTripModel.v (joint satisfiability). *)
 From CJ Require Import Base Dbl Tree LibcNum LibcPrint Grammar ParseDefs ParseSpec ParseComplete
   ParseListStrtod PrintDefs PrintStrict RoundTripNum RoundTripInt RoundTrip RoundTripPrint RoundTripRef
-  RoundTripEvidence.
+  RoundTripModel RoundTripEvidence.
 Local Open Scope Z_scope.
 
 (** * One number through print_number and parse_number *)
@@ -226,6 +227,19 @@ Print Assumptions C04_ref_d.
 Theorem C04_number_cycle_test : forallb chk_number table = true.
 Proof. exact test_number_cycle. Qed.
 Print Assumptions C04_number_cycle_test.
+
+(** The four contracts are jointly satisfiable: RoundTripModel.v builds a small artificial C
+    library (reference "%d"; "%g" prints int-valued doubles like "%d" and any other finite double
+    as an RFC 8259 number spelling out sign, mantissa and exponent; strtod reads both back) and
+    proves every clause for it — so the theorems above are not vacuous for lack of a C library.
+    (The real evidence that glibc satisfies the clauses is the evaluation of the reference
+    implementations on the table, and their comparison with glibc by the correspondence check.) *)
+Theorem C04_contracts_satisfiable :
+  exists strtod fmt_d fmt_g15 fmt_g17 sscanf_lg,
+    strtod_ok strtod /\ strtod_rfc strtod /\ LibcStrictSpec fmt_d fmt_g15 fmt_g17 /\
+    LibcRoundTripSpec strtod fmt_d fmt_g15 fmt_g17 sscanf_lg.
+Proof. exact contracts_satisfiable. Qed.
+Print Assumptions C04_contracts_satisfiable.
 
 (** * F3: the pinned tree's tolerance comparison *)
 
